@@ -15,10 +15,11 @@ import dsched
 from common import cbool, clist
 
 THEORY = "C11"
-VARIANTS = ["sleep", "getsig", "getsig_timed", "loop", "getsig_poll"]
+VARIANTS = ["sleep", "getsig", "getsig_timed", "loop", "getsig_poll", "loop_finwait"]
 # getsig_poll: the non-blocking form get_next_signal(timeout=0) (a task polling its receiver): Condition.wait(0) never parks,
 # it releases and re-takes the queue lock (model program prog_getsig_poll)
-COQ_VARIANT = {"getsig_poll": "VGetSigPoll", "sleep": "VSleep", "getsig": "VGetSig", "getsig_timed": "VGetSigTimed", "loop": "VLoop",
+# loop_finwait: a loop task whose loop_finalize itself waits (self.sleep): that wait starts after stop() and must be released at once
+COQ_VARIANT = {"loop_finwait": "VLoopFinWait", "getsig_poll": "VGetSigPoll", "sleep": "VSleep", "getsig": "VGetSig", "getsig_timed": "VGetSigTimed", "loop": "VLoop",
                "getsig_reader": "VGetSigReader", "getsig_timed_reader": "VGetSigTimedReader"}
 
 
@@ -98,10 +99,25 @@ def scenario(s, variant, env, stopper_delay, n_signals):
             obs["fin"] = True
             obs["t_release"] = s.clock
 
+    class LoopFinWaitTask(T.QMI_LoopTask):
+        def loop_prepare(self):
+            obs["run_entered"] = True
+
+        def loop_finalize(self):
+            obs["fin"] = True
+            obs["seq_begin"] = len(s.events)
+            try:
+                self.sleep(5.0)
+                obs["outcome"] = "tmo"
+            except QMI_TaskStopException:
+                obs["outcome"] = "exc"
+            finally:
+                obs["t_release"] = s.clock
+
     reader = variant.endswith("_reader")
-    cls = {"getsig_poll": GetSigPollTask, "sleep": SleepTask, "getsig": GetSigTask, "getsig_timed": GetSigTimedTask, "loop": LoopTask,
+    cls = {"loop_finwait": LoopFinWaitTask, "getsig_poll": GetSigPollTask, "sleep": SleepTask, "getsig": GetSigTask, "getsig_timed": GetSigTimedTask, "loop": LoopTask,
            "getsig_reader": GetSigTask, "getsig_timed_reader": GetSigTimedTask}[variant]
-    kwargs = {"loop_period": 2.0} if variant == "loop" else {}
+    kwargs = {"loop_period": 2.0} if variant in ("loop", "loop_finwait") else {}
     th = T._TaskThread(runner, "t", cls, (), kwargs)
     poke(runner, '_thread', th)
     th.start()
@@ -243,7 +259,7 @@ def oracle(variant, env, delay, res):
         return "nojoin", "join() did not return"
     if variant.endswith("_reader") and o.get("reader") not in ("sig", None):
         return "reader", "the other reader of the receiver ended with %r" % (o.get("reader"),)
-    if variant == "loop":
+    if variant in ("loop", "loop_finwait"):
         if o["run_entered"] and not o["fin"]:
             return "nofinalize", "loop task ended without running loop_finalize"
     else:
@@ -286,8 +302,8 @@ def run(ck):
         configs.append((v, False, 0.0, 0))
         if v in ("getsig", "getsig_timed"):
             configs.append((v, True, 0.0, 2))
-        if v in ("sleep", "getsig_timed", "loop"):
-            configs.append((v, False, 7.0 if v != "loop" else 5.0, 0))   # stop arrives after time-outs
+        if v in ("sleep", "getsig_timed", "loop", "loop_finwait"):
+            configs.append((v, False, 7.0 if not v.startswith("loop") else 5.0, 0))   # stop arrives after time-outs
         if v in ("getsig", "getsig_timed"):
             configs.append((v + "_reader", False, 0.0, 0))               # a second waiter on the same receiver
     total_runs = 0
